@@ -133,7 +133,7 @@ func genCoord(t *rapid.T, label string) int64 {
 	case 1:
 		return int64(rapid.IntRange(-64, 64).Draw(t, label))
 	default:
-		return int64(rapid.IntRange(-(1 << 20), 1<<20).Draw(t, label))
+		return int64(rapid.IntRange(-(1<<20), 1<<20).Draw(t, label))
 	}
 }
 
@@ -247,11 +247,11 @@ func c19Subs() []fw.Sub {
 	return []fw.Sub{
 		fw.Prop[c19SegPt]{
 			Name:       "segment-point",
-			Exhaustive: "all (segment, point) triples on the 5x5 integer lattice (7x7 in thorough)",
+			Exhaustive: "all (segment, point) triples on the 6x6 integer lattice (8x8 in thorough)",
 			Enum: func(tier string, yield func(c19SegPt) bool) {
-				n := int64(5)
+				n := int64(6)
 				if tier == "thorough" {
-					n = 7
+					n = 8
 				}
 				pts := latticePoints(n)
 				for _, a := range pts {
@@ -275,11 +275,11 @@ func c19Subs() []fw.Sub {
 		},
 		fw.Prop[c19SegSeg]{
 			Name:       "segment-segment",
-			Exhaustive: "all (segment, segment) pairs on the 5x5 integer lattice (7x7 in thorough)",
+			Exhaustive: "all (segment, segment) pairs on the 6x6 integer lattice (8x8 in thorough)",
 			Enum: func(tier string, yield func(c19SegSeg) bool) {
-				n := int64(5)
+				n := int64(6)
 				if tier == "thorough" {
-					n = 7
+					n = 8
 				}
 				pts := latticePoints(n)
 				for _, a := range pts {
